@@ -127,8 +127,8 @@ impl TimerQueue {
     pub(super) fn next(&self) -> Option<SimTime> {
         self.pending
             .borrow()
-            .front()
-            .filter(|slot| !slot.entrys.borrow().is_empty())
+            .iter()
+            .find(|slot| !slot.entrys.borrow().is_empty())
             .map(|s| s.time)
     }
 
